@@ -279,6 +279,12 @@ pub fn exec_history<'a, B: Robdd<'a>>(ctx: &mut Ctx, cfg: &HistCfg, b: &'a B, op
             let mut rep: HashMap<Tt, BddPtr> = HashMap::new();
             let mut known_nodes: HashMap<usize, &BddNode> = HashMap::new();
             let mut nvars = cfg.n0;
+            // level of every label, kept by the harness itself (initial permutation, then
+            // run-time variables appended): the shape oracle must not trust the library's map
+            let mut levels: Vec<usize> = vec![0; cfg.n0];
+            for (lvl, lbl) in cfg.order.iter().enumerate() {
+                levels[*lbl] = lvl;
+            }
             let hash_map = rsdd::repr::create_semantic_hash_map::<{ rsdd::constants::primes::U64_LARGEST }>(n);
             macro_rules! arg {
                 ($a:expr) => {{
@@ -387,6 +393,7 @@ pub fn exec_history<'a, B: Robdd<'a>>(ctx: &mut Ctx, cfg: &HistCfg, b: &'a B, op
                             );
                         }
                         nvars += 1;
+                        levels.push(nvars - 1);
                         if b.order_ref().get(lbl) != nvars - 1 || b.order_ref().var_at_level(nvars - 1) != lbl {
                             ctx.violation(
                                 "bdd.new_var.order",
@@ -437,7 +444,7 @@ pub fn exec_history<'a, B: Robdd<'a>>(ctx: &mut Ctx, cfg: &HistCfg, b: &'a B, op
                         }
                         _ => {}
                     }
-                    check_canon(ctx, cfg, b, got, &got_tt, &mut rep, &mut known_nodes, step, op);
+                    check_canon(ctx, cfg, b, got, &got_tt, &mut rep, &mut known_nodes, step, op, &levels);
                 }
                 if checks.record_canon {
                     res.canon.push(bdd_canon_string(got));
@@ -543,6 +550,7 @@ fn check_canon<'a, B: Robdd<'a>>(
     known: &mut HashMap<usize, &'a BddNode<'a>>,
     step: usize,
     op: &Op,
+    levels: &[usize],
 ) {
     ctx.count("canon_results", 1);
     // (a) same function => same pointer (the other direction is the walker's determinism)
@@ -581,11 +589,11 @@ fn check_canon<'a, B: Robdd<'a>>(
         }
         known.insert(k, nd);
         ctx.count("nodes_shape_checked", 1);
-        let lvl = b.order_ref().get(nd.var);
+        let lvl = levels[nd.var.value_usize()];
         let mut bad: Option<&str> = None;
         for child in [nd.low, nd.high] {
             if let Some(cv) = child.var_safe() {
-                if b.order_ref().get(cv) <= lvl {
+                if levels[cv.value_usize()] <= lvl {
                     bad = Some("order violated on an edge");
                 }
             }
